@@ -854,6 +854,8 @@ def c16_plan(pid, tier, seed, t0):
         jobs.append(("twins", [conc, "twins", str([2, 4, 8][k % 3]), str(400 if tier == "quick" else 4000), str(seed * 71 + k)]))
     for k in range(6 if tier == "quick" else 120):
         jobs.append(("hotchurn", [conc, "hotchurn", str([8, 4, 16][k % 3]), str(3000 if tier == "quick" else 10000), str(seed * 91 + k)]))
+    for k in range(9 if tier == "quick" else 200):
+        jobs.append(("handoff", [conc, "handoff", str([4, 8, 16][k % 3]), str(300 if tier == "quick" else 3000), str(seed * 37 + k)]))
     first_runs = 200 if tier == "quick" else 10000
     for k in range(first_runs):
         spins = rnd.choice([0, 0, 1000, 10000, 100000, 1000000, 3000000])
@@ -868,6 +870,8 @@ def c16_plan(pid, tier, seed, t0):
             jobs.append(("tsan-runtimes", [tsan, "runtimes", str([2, 4][k % 2]), "12", str(seed * 17 + k)]))
         for k in range(4 if tier == "quick" else 40):
             jobs.append(("tsan-twins", [tsan, "twins", str([2, 4][k % 2]), "60", str(seed * 19 + k)]))
+        for k in range(3 if tier == "quick" else 30):
+            jobs.append(("tsan-handoff", [tsan, "handoff", str([4, 8][k % 2]), "40", str(seed * 23 + k)]))
         for k in range(20 if tier == "quick" else 200):
             jobs.append(("tsan-first", [tsan, "first", str(rnd.choice([4, 8])), str(rnd.choice([0, 10000, 300000])), str(k)]))
     else:
@@ -925,6 +929,9 @@ def c16_plan(pid, tier, seed, t0):
         "length (0..100 calls) the threads are released together, each compiles its own *_by / map expressions (same shapes and offsets, different "
         "members) through the shared runtime and searches each four times while calling type() on every JSON type and all 26 built-ins in a "
         "thread-specific rotation, and the runtime is swept sequentially afterwards; truth comes from private runtimes used before the round. "
+        "'handoff' rounds move ownership between threads: the main thread compiles an expression, long-lived workers search it three times, the main "
+        "thread drops it and compiles a same-length text differing in a constant (results known by construction), while every thread also compiles a "
+        "60..120-deep multi-select at the same instant; "
         "'hotchurn' runs make half of the threads compile the same six expressions in a loop (tree compared with parse(), result with the "
         "sequential one) while the other half compile never-seen texts as fast as they can, for 3 s (quick) / 10 s; "
         "'twins' rounds release all threads into compile at once with RELATED texts — one 77-byte expression behind 0..3 leading blanks (its "
@@ -1020,7 +1027,7 @@ def c17_plan(pid, tier, seed, t0):
                 cid, kind = cid + ".big", kind[4:]
             if kind.startswith("names."):
                 cid, kind = cid + ".names", kind[6:]
-            if kind.startswith("deep"):
+            if kind.startswith("deep") or kind.startswith("size") or kind.startswith("shared"):
                 pre, _, kind = kind.partition(".")
                 cid = cid + "." + pre
             if c == "n-default":
